@@ -138,6 +138,28 @@ def run(P, R, tier):
         R.check(ax == 0, "SHAPE.argmin", g.key, src(c), "argmin over the cluster axis of a (clusters, samples) array", f"argmin is taken over axis {ax}: with distances of shape (clusters, samples) this picks the nearest *sample* of each cluster, not the nearest centroid of each sample", c.lineno)
     from ..engines import dtype as _dt
     _dt.check_function(P, R, "kmeans:e_step", raw_params=("data", "means"))
+    # the M-step: whatever fit hands it of the current centroids / the data keeps the dtype the user gave (an integer array of
+    # initial centroids), so a buffer shaped after it truncates the means stored into it
+    fm_ = P.func("kmeans:m_step")
+    ff_ = P.func(FIT)
+    duf_ = get_defuse(ff_, P)
+    rawp_ = set()
+    for c_ in [x for x in walk_no_nested(ff_.node) if isinstance(x, ast.Call)]:
+        try:
+            kind_, fexpr_, args_, kws_ = P.peel_call(c_, ff_)
+            tg_ = [t[1] for t in P.resolve_callee(fexpr_, ff_) if t[0] == "repo"]
+        except Exception:
+            tg_ = []
+        if not tg_ or tg_[0].key != fm_.key:
+            continue
+        for p_, a_ in P.bind_args(fm_, args_, kws_).items():
+            if a_ is None:
+                continue
+            cn_ = cone(duf_, a_, duf_.stmt_of(c_), interproc=False)
+            direct = isinstance(a_, (ast.Attribute, ast.Name)) and (src(a_).split(".")[-1] in ("centroids_", "means") or (isinstance(a_, ast.Name) and a_.id in ff_.params and a_.id not in ("self",)))
+            if direct:
+                rawp_.add(p_)
+    _dt.check_function(P, R, "kmeans:m_step", raw_params=tuple(sorted(rawp_)))
     from ..engines import proto as _pp
     _pp.check_pairwise_folds(P, R, ['kmeans', 'utils'])
     from ..engines import proto as _pbs
@@ -150,7 +172,11 @@ def run(P, R, tier):
     n_ro += _oro.check_param_readonly(P, R, _own_ro, 'kmeans:m_step', ['stats'], why='the statistics / data handed to one step are changed by it: a second step from the same object (several clients adapted from one set of statistics, a repeated call) computes from different values')
     n_ro += _oro.check_param_readonly(P, R, _own_ro, 'kmeans:e_step', ['data', 'means'], why='the statistics / data handed to one step are changed by it: a second step from the same object (several clients adapted from one set of statistics, a repeated call) computes from different values')
     R.floor('OWN.readonly parameters', n_ro, 3)
+    from ..engines import carry as _carry
+    _carry.check_stale_derived(P, R, FIT)
+    _carry.check_blocked_loops(P, R, ["kmeans"])
 
 
 EXPLANATION += ' Also: (ACC.sum) the per-block statistics are added (+=) from zero in the M-step; (DTYPE.raw); (COVER.pairs); (DIM.ABS) no dimensioned quantity is tested against an absolute constant.'
 EXPLANATION += ' (IDX.mask-eq, generalised by GROUP) the rows summed into a cluster are selected by equality with the cluster id, by a sort-and-split grouping of the assignment (G1-G5), by a scatter-add at the assignment, or by segment sums over the runs of the sorted assignment; (COVER.tree) tree-shaped sums of the block statistics.'
+EXPLANATION += " (STALE.derived / BLOCK.carried) nothing precomputed from the centroids survives their update, and per-cluster results are computed from that cluster's values; DTYPE.raw also covers what fit hands the M-step of the current centroids."
